@@ -216,7 +216,7 @@ class UpdateTimeout(Exception):
     """An update did not return within UPDATE_LIMIT_S (a normal update takes milliseconds)."""
 
 
-UPDATE_LIMIT_S = 20.0
+UPDATE_LIMIT_S = 5.0
 
 
 class time_limit:
@@ -232,6 +232,16 @@ class time_limit:
         import signal
 
         def handler(signum, frame):
+            # never interrupt a JIT compilation (a new type signature met in a worker):
+            # re-arm instead
+            try:
+                from numba.core.compiler_lock import global_compiler_lock
+
+                if global_compiler_lock.is_locked():
+                    signal.setitimer(signal.ITIMER_REAL, self.seconds)
+                    return
+            except Exception:
+                pass
             raise UpdateTimeout(f"no result within {self.seconds} s")
 
         self._old = signal.signal(signal.SIGALRM, handler)
@@ -262,6 +272,15 @@ def warm():
     k = dict(fab="enAB", reg="disl", tex="random", vol="uniform", ng=3, prm="default")
     m = build_mineral(k)
     update(m, params_for(1, "default"), np.eye(3), flow("gen"), 0.0, 0.05)
+    # every numeric type signature the parameter letters can produce (M* is an int in
+    # DefaultParams and a float in the overrides), so that no worker has to JIT-compile
+    for prm in ("M200", "M0chi0", "lam0", "p1", "n2"):
+        for reg in ("disl", "yield"):
+            k = dict(fab="olA", reg=reg, tex="random", vol="geometric", ng=3, prm=prm)
+            update(build_mineral(k), params_for(0, prm), np.eye(3), flow("gen"), 0.0, 0.05)
+    with Monitor():
+        k = dict(fab="olA", reg="disl", tex="random", vol="geometric", ng=3, prm="M200")
+        update(build_mineral(k), params_for(0, "M200"), np.eye(3), flow("pos"), 0.0, 0.05)
 
 
 
@@ -374,6 +393,11 @@ def canon(st):
     return digest(*[np.round(x.orientations[-1], 9) for x in ms], *[np.round(x.fractions[-1], 9) for x in ms], np.round(st.F, 9), round(st.t, 9))
 
 
+class StopExploration(Exception):
+    """Raised by a step function to end the exploration of the current case early (used
+    after an update hit the time limit: every further update would hit it too)."""
+
+
 def bfs(root, letters, depth, step):
     """Breadth-first exploration.  step(parent_state, letter) -> child state or None
     (None = the transition ended in a rejected update; not expanded further).
@@ -385,7 +409,10 @@ def bfs(root, letters, depth, step):
         nxt = []
         for st in frontier:
             for lt in letters:
-                child = step(st, lt)
+                try:
+                    child = step(st, lt)
+                except StopExploration:
+                    return nstates, ntrans + 1
                 ntrans += 1
                 if child is None:
                     continue
@@ -493,6 +520,9 @@ def twin_explore(res, key, prm_a, prm_b, root, letters, depth, flow_a, flow_b, t
             if (ea is None) != (eb is None):
                 V(res, key, "twin_both_complete", {"primary": type(ea).__name__ if ea else "ok", "twin": type(eb).__name__ if eb else "ok"}, hist=hist)
             res["notes"]["rejected_updates"] = res["notes"].get("rejected_updates", 0) + 1
+            if isinstance(ea, UpdateTimeout) or isinstance(eb, UpdateTimeout):
+                res["notes"]["cases_stopped_after_timeout"] = res["notes"].get("cases_stopped_after_timeout", 0) + 1
+                raise StopExploration()
             return None
         child.F, child.twin["F"] = np.asarray(Fa), np.asarray(Fb)
         child.t = t1
